@@ -206,7 +206,7 @@ fn version_verdict(bytes: &[u8], v: (u8, u8, u8), cur: (u8, u8, u8)) -> Result<u
 
 pub fn run() {
 	let cx = ctx();
-	cx.note("rule", json!("archives of the corner list (base, zero frames, no/empty metadata, no end, double end, gecko, nothing) per layout-class representative x {none, LZ4, ZSTD} x hash {off,on}, inspected with the harness's own tar reader: signature at offset 0, entry order, every JSON entry valid and equal to the rendering of what peppi::read reconstructs, raw entries equal to the raw blocks, two writes byte-identical; plus 1,101 metadata sizes growing byte by byte over more than two tar blocks (every entry length modulo 512); unknown entries (names x, zz.json, frames.arrow.bak, empty name-ish, 3 KB) inserted at EVERY position before frames.arrow, singly and in pairs: game unchanged; unknown entries with unusual names (a GNU long-name record whose first 100 bytes end in a known name, a name that is not UTF-8, the directory member ./, a 100-byte name) at every position; peppi.json rewritten (own tar writer, checksum recomputed) with format version triples: quick all (major,minor) at patch 0 and all triples over {0,1,2,3,255}; thorough ALL 2^24: read is Err for every triple < (2,0,0), Ok for every triple from 2.0.0 up to the version the writer stamps, and for later versions (on which the statement is silent) Err or Ok. Every case non-trivial; distinct by construction"));
+	cx.note("rule", json!("archives of the corner list (base, zero frames, no/empty metadata, no end, double end, gecko, nothing) per layout-class representative x {none, LZ4, ZSTD} x hash {off,on}, inspected with the harness's own tar reader: signature at offset 0, entry order, every JSON entry valid and equal to the rendering of what peppi::read reconstructs, raw entries equal to the raw blocks, two writes byte-identical; games whose Game End block is longer than the version prescribes; plus 1,101 metadata sizes growing byte by byte over more than two tar blocks (every entry length modulo 512); unknown entries (names x, zz.json, frames.arrow.bak, empty name-ish, 3 KB) inserted at EVERY position before frames.arrow, singly and in pairs: game unchanged; unknown entries with unusual names (a GNU long-name record whose first 100 bytes end in a known name, a name that is not UTF-8, the directory member ./, a 100-byte name) at every position; peppi.json rewritten (own tar writer, checksum recomputed) with format version triples: quick all (major,minor) at patch 0 and all triples over {0,1,2,3,255}; thorough ALL 2^24: read is Err for every triple < (2,0,0), Ok for every triple from 2.0.0 up to the version the writer stamps, and for later versions (on which the statement is silent) Err or Ok. Every case non-trivial; distinct by construction"));
 	cx.note("exhaustive", json!(true));
 	cx.note("assumptions", json!(["for a game without frames the statement leaves the presence of frames.arrow open: both accepted"]));
 	let versions = if cx.quick() { vec![(0, 1), (1, 3), (2, 0), (2, 2), (3, 0), (3, 3), (3, 7), (3, 13), (3, 16)] } else { spec::v_rep() };
@@ -246,6 +246,36 @@ pub fn run() {
 		let bytes = Arc::new(record(&abs).doc.assemble());
 		eval_case("archive", o_archive, &bytes, &p, || abs.describe(), local);
 	});
+	// games whose Game End block is longer than its version prescribes (the table says so, the reader goes by the
+	// block): the extra fields are in the game, so they are in end.json and in end.raw, and a reader has to
+	// reconstruct them from there
+	{
+		let mut raw_cases: Vec<(Vec<u8>, String, P)> = vec![];
+		for (v, size) in [((3u8, 12u8), 6usize), ((2, 0), 6), ((1, 0), 2), ((0, 1), 6)] {
+			let a = base_replay(v, vec![pc(0, false), pc(1, false), pc(3, false)], 2);
+			let mut d = record(&a).doc;
+			for t in d.table.iter_mut() {
+				if t.0 == 0x39 {
+					t.1 = size as u16;
+				}
+			}
+			for ev in d.events.iter_mut() {
+				if ev.code == 0x39 {
+					// method, LRAS initiator, placements of ports 1-4
+					let full = [2u8, 1, 0, 2, 0xFF, 1];
+					let n = ev.payload.len();
+					ev.payload.extend_from_slice(&full[n..size]);
+				}
+			}
+			for comp in 0..3u8 {
+				raw_cases.push((d.assemble(), format!("v{}.{} with a Game End block of {} bytes", v.0, v.1, size), P { comp, class: "long-game-end", ..Default::default() }));
+			}
+		}
+		par_each(raw_cases.into_iter(), |(bytes, label, p), local| {
+			let bytes = Arc::new(bytes);
+			eval_case("archive", o_archive, &bytes, &p, || label, local);
+		});
+	}
 	// unknown entries
 	let mk_archive = |a: &AbsReplay, comp: u8| -> Vec<u8> {
 		let b = record(a).doc.assemble();
